@@ -450,3 +450,6 @@ def run(ck):
                     breaks='inserting a queued owner in the middle of the queue (REPLACE_EXISTING with waiters) '
                     'corrupts the backward chain: waiting owners vanish from the queue', floor=5)
         listshape.check(prog, r)
+        from rules import listops
+        rq = ck.rule('C04.10', 'the public list operations do what their names say (dbus/dbus-list.c; abstract interpretation of their CFG over every circular list of 0..3 links with equal and distinct data, every link / anchor / data argument, with and without memory for a new link): resulting order, return value, freed and detached links agree with the specification of append, prepend, insert_after, remove (first match), remove_last / find_last (last match), remove_link, clear, get/pop first/last (link), get_length, length_is_one', 'ABS', breaks='the owner queue loses or reorders waiting connections: append puts a new waiter elsewhere than at the end, or removing one owner unlinks another', floor=15)
+        listops.check(prog, rq)
